@@ -125,5 +125,13 @@ Definition djust_stmt (c : cfg) (m : mctl) (s : stmt) : bool :=
 Definition djust_block (c : cfg) (idom : list (option N)) (b : block) : bool :=
   forallb (djust_stmt c (block_ctl (c_blocks c) idom b)) (b_stmts b).
 
+(* the immediate-dominator table has the shape of one: every entry names an earlier
+   block, and predecessors are blocks of the graph (so walking up from a predecessor
+   ends within as many steps as there are blocks) *)
+Definition idom_shape (c : cfg) (idom : list (option N)) : bool :=
+  forallb (fun '(i, o) => match o with Some d => (N.to_nat d <? i)%nat | None => true end)
+          (combine (seq 0 (length idom)) idom) &&
+  forallb (fun b => forallb (fun q => (N.to_nat q <? length (c_blocks c))%nat) (b_preds b)) (c_blocks c).
+
 Definition djust_cfg (c : cfg) (idom : list (option N)) : bool :=
-  forallb (djust_block c idom) (c_blocks c).
+  idom_shape c idom && forallb (djust_block c idom) (c_blocks c).
